@@ -1,6 +1,7 @@
 import I18n.Lemmas.LocaleParse
 import I18n.Lemmas.LocaleRe
 import I18n.Lemmas.LocaleFix
+import I18n.Lemmas.LocaleLoad
 import I18n.Lemmas.LocaleTags
 import I18n.Lemmas.LocaleTagIff
 import I18n.Lemmas.LocaleNoCrash
@@ -150,6 +151,22 @@ theorem fix_codes_rejects (l : Language) :
       by_cases hc : c ∈ Generated.Locale.iso3166
       · simp [hc]
       · simp [hc]
+
+/-- PIN: the language table the code has loaded is the dict the loop of `_read_iso_codes` (modelled: `loadStep`) builds from the
+    rows of data/iso-codes as `ConfigParser` presents them; the territory set is the upper-cased key list -/
+theorem iso_tables_loaded :
+    loadIso639 (Generated.Locale.iso639.map (·.1)) Generated.Locale.languageCodes = Generated.Locale.iso639
+      ∧ loadIso3166 Generated.Locale.territoryKeys = Generated.Locale.iso3166 :=
+  ⟨iso639_is_loaded, iso3166_is_loaded⟩
+
+/-- in terms of the data file: `fix_codes` accepts a language code iff it is the three-letter code or the two-letter equivalent of
+    a row of data/iso-codes, and the result is the row's two-letter equivalent if it has one, else its three-letter code -/
+theorem fix_codes_by_data (k : List Char) :
+    (∀ v, lookupLanguage k = some v →
+        ∃ r ∈ Generated.Locale.languageCodes, (r.2 ≠ [] ∧ v = r.2 ∧ (k = r.2 ∨ k = r.1)) ∨ (r.2 = [] ∧ k = r.1 ∧ v = r.1))
+    ∧ (∀ r ∈ Generated.Locale.languageCodes,
+        (r.2 ≠ [] → lookupLanguage r.1 = some r.2 ∧ lookupLanguage r.2 = some r.2) ∧ (r.2 = [] → lookupLanguage r.1 = some r.1)) :=
+  ⟨fun v h => lookupLanguage_from_data k v h, fun r hr => lookupLanguage_of_row r hr⟩
 
 example : (fixCodes ⟨"pol".toList, some "PL".toList, none, some "euro".toList⟩).toOption
     = some (⟨"pl".toList, some "PL".toList, none, some "euro".toList⟩, true) := by decide +kernel
